@@ -47,7 +47,7 @@ func genCallback() {
 	if !ok || exprString(d.Cond) != "b.Round!=0" || d.Else != nil {
 		die("callbackStore.Put: second statement is not `if b.Round != 0 {…}`")
 	}
-	var rlock, runlock bool
+	var rlock, runlock, wlock, wunlock bool
 	var loop *ast.RangeStmt
 	for _, s := range d.Body.List {
 		switch t := s.(type) {
@@ -55,8 +55,8 @@ func genCallback() {
 			if loop != nil {
 				die("callbackStore.Put: more than one range loop")
 			}
-			if !rlock || !runlock {
-				die("callbackStore.Put: the dispatch loop is not preceded by c.RLock(); defer c.RUnlock()")
+			if !(rlock && runlock) && !(wlock && wunlock) {
+				die("callbackStore.Put: the dispatch loop is preceded neither by c.RLock(); defer c.RUnlock() nor by c.Lock(); defer c.Unlock()")
 			}
 			loop = t
 		default:
@@ -65,6 +65,10 @@ func genCallback() {
 				rlock = true
 			case "defer c.RUnlock()":
 				runlock = true
+			case "c.Lock()":
+				wlock = true
+			case "defer c.Unlock()":
+				wunlock = true
 			default:
 				if !strings.HasPrefix(stmtString(s), "span.AddEvent(") {
 					die("callbackStore.Put: unrecognised statement in the dispatch block: %s", stmtString(s))
@@ -72,63 +76,145 @@ func genCallback() {
 			}
 		}
 	}
-	if loop == nil || exprString(loop.X) != "c.callbacks" {
+	if loop == nil || exprString(loop.X) != "c.callbacks" || exprString(loop.Key) != "id" || exprString(loop.Value) != "cb" {
 		die("callbackStore.Put: no `for id, cb := range c.callbacks` loop")
 	}
-	b("callbackPutHoldsReadLock", "callbackStore.Put: c.RLock(); defer c.RUnlock() precede the dispatch loop (the read lock is held during every send)", true)
-	// loop body: j, ok := c.newJob[id]; if !ok { continue }; then the send
-	blocking := -1
-	for _, s := range loop.Body.List {
-		switch t := s.(type) {
-		case *ast.SendStmt:
-			if exprString(t.Chan) != "j" || blocking != -1 {
-				die("callbackStore.Put: unexpected send statement")
+	if (rlock || runlock) && (wlock || wunlock) {
+		die("callbackStore.Put: both kinds of lock calls in the dispatch block")
+	}
+	// The loop body. Exactly two shapes are known:
+	//   as it is   j, ok := c.newJob[id]; if !ok { continue }; j <- cbPair{…}                              (under the READ lock)
+	//   repaired   j, ok := c.newJob[id]; if !ok { continue }; job := cbPair{…};
+	//              if !c.workers[id].stream { j <- job; continue }                                          (a callback of the node itself: plain send)
+	//              select { case j <- job: default: [log]; c.stopWorker(id, true); delete(c.callbacks, id) }  (under the WRITE lock)
+	// In the second shape the default branch must END the consumer (deregister it, close its channel, close notice) —
+	// a default branch that merely goes on to the next callback would silently skip a beacon for that consumer (C11).
+	body := loop.Body.List
+	if len(body) < 3 || stmtString(body[0]) != "j,ok:=c.newJob[id]" {
+		die("callbackStore.Put: the dispatch loop does not start with `j, ok := c.newJob[id]`")
+	}
+	if is, ok := body[1].(*ast.IfStmt); !ok || exprString(is.Cond) != "!ok" || is.Else != nil || len(is.Body.List) != 1 || stmtStringDeep(is.Body.List[0]) != "continue" {
+		die("callbackStore.Put: second statement of the dispatch loop is not `if !ok { continue }`")
+	}
+	isJobLit := func(e ast.Expr) bool {
+		x := exprString(e)
+		return x == "cbPair{cb:cb,b:b}" || x == "cbPair{b:b,cb:cb}"
+	}
+	repaired := false
+	switch {
+	case len(body) == 3:
+		ss, ok := body[2].(*ast.SendStmt)
+		if !ok {
+			if _, isSel := body[2].(*ast.SelectStmt); isSel {
+				die("callbackStore.Put: the dispatch is a bare select: neither the plain send of the code as it is nor the repaired shape (a default branch that only skips the callback loses a beacon for that consumer)")
 			}
-			blocking = 1
-		case *ast.SelectStmt:
-			hasSend, hasDefault := false, false
-			for _, cc := range t.Body.List {
-				c := cc.(*ast.CommClause)
-				if c.Comm == nil {
-					hasDefault = true
-				} else if ss, ok := c.Comm.(*ast.SendStmt); ok && exprString(ss.Chan) == "j" {
-					hasSend = true
-				}
-			}
-			if !hasSend || blocking != -1 {
-				die("callbackStore.Put: select without a send to the job channel")
-			}
-			if hasDefault {
-				blocking = 0
-			} else {
-				blocking = 1
-			}
-		case *ast.AssignStmt:
-			if stmtString(s) != "j,ok:=c.newJob[id]" {
-				die("callbackStore.Put: unrecognised assignment in the dispatch loop: %s", stmtString(s))
-			}
-		case *ast.IfStmt:
-			if exprString(t.Cond) != "!ok" {
-				die("callbackStore.Put: unrecognised if in the dispatch loop: %s", exprString(t.Cond))
-			}
-		default:
-			die("callbackStore.Put: unrecognised statement in the dispatch loop: %T", s)
+			die("callbackStore.Put: unrecognised dispatch statement %T", body[2])
 		}
+		if exprString(ss.Chan) != "j" || !isJobLit(ss.Value) {
+			die("callbackStore.Put: unexpected send statement %s", stmtStringDeep(ss))
+		}
+		if !rlock {
+			die("callbackStore.Put: plain-send dispatch under the write lock")
+		}
+	case len(body) == 5:
+		as, ok := body[2].(*ast.AssignStmt)
+		if !ok || len(as.Lhs) != 1 || exprString(as.Lhs[0]) != "job" || as.Tok != token.DEFINE || len(as.Rhs) != 1 || !isJobLit(as.Rhs[0]) {
+			die("callbackStore.Put: expected `job := cbPair{cb: cb, b: b}`, got %s", stmtString(body[2]))
+		}
+		if got := stmtStringDeep(body[3]); got != "if !c.workers[id].stream{j<-job;continue;}" {
+			die("callbackStore.Put: expected `if !c.workers[id].stream { j <- job; continue }`, got %s", got)
+		}
+		sel, ok := body[4].(*ast.SelectStmt)
+		if !ok || len(sel.Body.List) != 2 {
+			die("callbackStore.Put: expected a select with a send and a default branch")
+		}
+		var sendC, defC *ast.CommClause
+		for _, cc := range sel.Body.List {
+			c := cc.(*ast.CommClause)
+			if c.Comm == nil {
+				defC = c
+			} else {
+				sendC = c
+			}
+		}
+		if sendC == nil || defC == nil {
+			die("callbackStore.Put: select without a send or without a default branch")
+		}
+		if ss, ok := sendC.Comm.(*ast.SendStmt); !ok || exprString(ss.Chan) != "j" || exprString(ss.Value) != "job" || len(sendC.Body) != 0 {
+			die("callbackStore.Put: the send branch of the select is not `case j <- job:` with an empty body")
+		}
+		var eff []string
+		for _, s := range defC.Body {
+			if t := stmtStringDeep(s); !strings.HasPrefix(t, "c.l.") {
+				eff = append(eff, t)
+			}
+		}
+		if len(eff) != 2 || eff[0] != "c.stopWorker(id,true)" || eff[1] != "delete(c.callbacks,id)" {
+			die("callbackStore.Put: the default branch of the dispatch must end the consumer — c.stopWorker(id, true); delete(c.callbacks, id) — found %v (a branch that only skips the callback silently loses a beacon for that consumer)", eff)
+		}
+		if !wlock {
+			die("callbackStore.Put: a dispatch that ends a consumer must hold the WRITE lock (it deletes map entries and closes a channel; under the read lock a concurrent Put could still reach the consumer after the beacon it missed)")
+		}
+		repaired = true
+	default:
+		die("callbackStore.Put: unrecognised dispatch loop (%d statements)", len(body))
 	}
-	if blocking == -1 {
-		die("callbackStore.Put: no send to the job channel found")
-	}
-	b("callbackPutDispatchBlocking", "callbackStore.Put: the dispatch is a plain `j <- cbPair{…}` (true) rather than a select with a default branch (false)", blocking == 1)
+	b("callbackPutHoldsReadLock", "callbackStore.Put: c.RLock(); defer c.RUnlock() precede the dispatch loop (the read lock is held during every send)", rlock && runlock)
+	b("callbackPutHoldsWriteLock", "callbackStore.Put: c.Lock(); defer c.Unlock() precede the dispatch loop (dispatches are serialised; the loop may change the callback table)", wlock && wunlock)
+	b("callbackPutDispatchBlocking", "callbackStore.Put: the dispatch to a stream consumer is a plain `j <- cbPair{…}` (true) rather than a select with a default branch (false)", !repaired)
+	b("callbackOverflowEndsConsumer", "callbackStore.Put: the default branch of the dispatch ends the consumer whose queue is full — c.stopWorker(id, true); delete(c.callbacks, id) — it never just skips it", repaired)
+	b("callbackInternalDispatchBlocking", "callbackStore.Put: a callback that was not registered with AddStreamCallback (every callback, in the code as it is) gets a plain send", true)
 	if rs, ok := stmts[2].(*ast.ReturnStmt); !ok || len(rs.Results) != 1 || exprString(rs.Results[0]) != "nil" {
 		die("callbackStore.Put: last statement is not `return nil`")
 	}
 
-	b("callbackAddLocked", "callbackStore.AddCallback begins with Lock(); defer Unlock()", holdsMutexForWholeBody(dir, "callbackStore", "AddCallback"))
+	// AddCallback / AddStreamCallback / RemoveCallback and the close notice
+	ownRemover := false
+	addFn := "AddCallback"
+	if repaired {
+		addFn = "addCallback"
+		fd := findFunc(dir, "callbackStore", "AddCallback")
+		if len(fd.Body.List) != 1 || stmtString(fd.Body.List[0]) != "c.addCallback(id,fn,false)" {
+			die("callbackStore.AddCallback: expected the single statement c.addCallback(id, fn, false)")
+		}
+		// AddStreamCallback: either just the registration, or the registration plus a remover for exactly that registration:
+		//   jobChan := c.addCallback(id, fn, true)
+		//   return func() { c.Lock(); defer c.Unlock(); if c.newJob[id] == jobChan { delete(c.callbacks, id); c.stopWorker(id, false) } }
+		fd = findFunc(dir, "callbackStore", "AddStreamCallback")
+		switch {
+		case len(fd.Body.List) == 1 && stmtString(fd.Body.List[0]) == "c.addCallback(id,fn,true)":
+		case len(fd.Body.List) == 2 && stmtString(fd.Body.List[0]) == "jobChan:=c.addCallback(id,fn,true)":
+			rs, ok := fd.Body.List[1].(*ast.ReturnStmt)
+			if !ok || len(rs.Results) != 1 {
+				die("callbackStore.AddStreamCallback: second statement is not `return func() {…}`")
+			}
+			fl, ok := rs.Results[0].(*ast.FuncLit)
+			if !ok {
+				die("callbackStore.AddStreamCallback: does not return a function literal")
+			}
+			var got []string
+			for _, s := range fl.Body.List {
+				got = append(got, stmtStringDeep(s))
+			}
+			want := []string{"c.Lock()", "defer c.Unlock()", "if c.newJob[id]==jobChan{delete(c.callbacks,id);c.stopWorker(id,false);}"}
+			if strings.Join(got, " | ") != strings.Join(want, " | ") {
+				die("callbackStore.AddStreamCallback: the returned remover is %v, expected %v", got, want)
+			}
+			add := findFunc(dir, "callbackStore", "addCallback")
+			if last, ok := add.Body.List[len(add.Body.List)-1].(*ast.ReturnStmt); !ok || len(last.Results) != 1 || exprString(last.Results[0]) != "c.newJob[id]" {
+				die("callbackStore.addCallback: does not end with `return c.newJob[id]`")
+			}
+			ownRemover = true
+		default:
+			die("callbackStore.AddStreamCallback: unrecognised body")
+		}
+	}
+	b("callbackAddLocked", "callbackStore.AddCallback (and AddStreamCallback) begin with Lock(); defer Unlock()", holdsMutexForWholeBody(dir, "callbackStore", addFn))
 	b("callbackRemoveLocked", "callbackStore.RemoveCallback begins with Lock(); defer Unlock()", holdsMutexForWholeBody(dir, "callbackStore", "RemoveCallback"))
 	// the close signal in AddCallback
 	{
-		add := findFunc(dir, "callbackStore", "AddCallback")
-		plain, sel := 0, 0
+		add := findFunc(dir, "callbackStore", addFn)
+		plain, sel, stop := 0, 0, 0
 		ast.Inspect(add.Body, func(n ast.Node) bool {
 			switch t := n.(type) {
 			case *ast.SelectStmt:
@@ -138,17 +224,66 @@ func genCallback() {
 				if exprString(t.Chan) == "jobChan" {
 					plain++
 				}
+			case *ast.CallExpr:
+				if exprString(t) == "c.stopWorker(id,true)" {
+					stop++
+				}
 			}
 			return true
 		})
-		if plain+sel != 1 {
-			die("callbackStore.AddCallback: expected exactly one close-signal send, found %d plain / %d select", plain, sel)
+		if plain+sel+stop != 1 || sel != 0 {
+			die("callbackStore.%s: expected exactly one close signal (a plain send to the replaced channel, or c.stopWorker(id, true)), found %d plain / %d select / %d stopWorker", addFn, plain, sel, stop)
+		}
+		if (stop == 1) != repaired {
+			die("callbackStore.%s: the close signal and the dispatch belong to different variants", addFn)
 		}
 		b("callbackAddCloseSendBlocking", "callbackStore.AddCallback: the close signal to the replaced channel is a plain send (under the write lock)", plain == 1)
 	}
+	// repaired variant: the close notice travels outside the job queue
+	outOfBand := false
+	if repaired {
+		sw := findFunc(dir, "callbackStore", "stopWorker")
+		var got []string
+		for _, s := range sw.Body.List {
+			got = append(got, stmtStringDeep(s))
+		}
+		want := []string{"if notify{c.workers[id].closed=c.callbacks[id];}", "close(c.newJob[id])", "delete(c.newJob,id)", "delete(c.workers,id)"}
+		if strings.Join(got, " | ") != strings.Join(want, " | ") {
+			die("callbackStore.stopWorker: expected %v, got %v", want, got)
+		}
+		// the worker: after the closed channel is drained, the notice (if any) is passed on, then the worker ends
+		rw := findFunc(dir, "callbackStore", "runWorker")
+		found := false
+		ast.Inspect(rw.Body, func(n ast.Node) bool {
+			if is, ok := n.(*ast.IfStmt); ok && exprString(is.Cond) == "!ok" {
+				if stmtStringDeep(is) != "if !ok{if w.closed!=nil{w.closed(nil,true);};return ;}" {
+					die("callbackStore.runWorker: the closed-channel branch is %s", stmtStringDeep(is))
+				}
+				found = true
+			}
+			return true
+		})
+		if !found {
+			die("callbackStore.runWorker: no `if !ok {…}` branch")
+		}
+		rm := findFunc(dir, "callbackStore", "RemoveCallback")
+		n := 0
+		ast.Inspect(rm.Body, func(x ast.Node) bool {
+			if c, ok := x.(*ast.CallExpr); ok && exprString(c) == "c.stopWorker(id,false)" {
+				n++
+			}
+			return true
+		})
+		if n != 1 {
+			die("callbackStore.RemoveCallback: expected one c.stopWorker(id, false)")
+		}
+		outOfBand = true
+	}
+	b("callbackStreamRemover", "callbackStore.AddStreamCallback returns a function that removes the registration it made and no other (it compares the job channel registered under the id with its own)", ownRemover)
+	b("callbackCloseOutOfBand", "callbackStore: a close notice is not a job in the queue: stopWorker records it, closes the channel, and the worker passes it on after draining what is queued (no send, nothing to wait for)", outOfBand)
 	// the channel capacity expression
 	{
-		add := findFunc(dir, "callbackStore", "AddCallback")
+		add := findFunc(dir, "callbackStore", addFn)
 		found := ""
 		ast.Inspect(add.Body, func(n ast.Node) bool {
 			c, ok := n.(*ast.CallExpr)
@@ -166,6 +301,7 @@ func genCallback() {
 	// SyncChain: store / cursor calls in source order, top-level guards
 	sc := findFunc(dir, "", "SyncChain")
 	var calls []string
+	registersStream := false
 	ast.Inspect(sc.Body, func(n ast.Node) bool {
 		c, ok := n.(*ast.CallExpr)
 		if !ok {
@@ -179,6 +315,9 @@ func genCallback() {
 		if !ok {
 			return true
 		}
+		if x.Name == "store" && sel.Sel.Name == "AddStreamCallback" {
+			registersStream = true
+		}
 		if x.Name == "store" || (x.Name == "c" && (sel.Sel.Name == "Seek" || sel.Sel.Name == "Next" || sel.Sel.Name == "First" || sel.Sel.Name == "Last")) {
 			calls = append(calls, exprString(c))
 		}
@@ -187,6 +326,44 @@ func genCallback() {
 	if len(calls) == 0 {
 		die("SyncChain: no store calls found")
 	}
+	// how SyncChain takes its callback away: store.RemoveCallback(id) — whatever is registered under the id at that time — or the
+	// remover AddStreamCallback returned (`remove := store.AddStreamCallback(…)`; `defer remove()`), never a mixture
+	byID, byRemover, assigned, deferred := 0, 0, false, false
+	ast.Inspect(sc.Body, func(n ast.Node) bool {
+		switch t := n.(type) {
+		case *ast.CallExpr:
+			switch exprString(t.Fun) {
+			case "store.RemoveCallback":
+				byID++
+			case "remove":
+				byRemover++
+			}
+		case *ast.AssignStmt:
+			if len(t.Lhs) == 1 && exprString(t.Lhs[0]) == "remove" && len(t.Rhs) == 1 {
+				if c, ok := t.Rhs[0].(*ast.CallExpr); ok && exprString(c.Fun) == "store.AddStreamCallback" {
+					assigned = true
+				}
+			}
+		case *ast.DeferStmt:
+			if exprString(t.Call) == "remove()" {
+				deferred = true
+			}
+		}
+		return true
+	})
+	ownOnly := false
+	switch {
+	case byID == 2 && byRemover == 0 && !assigned:
+	case byID == 0 && byRemover == 1 && assigned && deferred && ownRemover:
+		ownOnly = true
+	default:
+		die("SyncChain: unrecognised way of deregistering its callback (%d RemoveCallback(id), %d remove(), remover assigned %v, deferred %v, store returns a remover %v)", byID, byRemover, assigned, deferred, ownRemover)
+	}
+	b("syncChainRemovesOwnOnly", "SyncChain deregisters with the remover of its own registration (deferred: on every way out), not with RemoveCallback(id)", ownOnly)
+	if registersStream != repaired {
+		die("SyncChain registers its callback with %v but callbackStore.Put is %v", map[bool]string{true: "AddStreamCallback", false: "AddCallback"}[registersStream], map[bool]string{true: "repaired", false: "as it is"}[repaired])
+	}
+	b("syncChainRegistersStream", "SyncChain registers its callback with store.AddStreamCallback (a consumer Put never waits for)", registersStream)
 	l.pf("/-- SyncChain: calls on the store and on the cursor, in source order -/\ndef syncChainCalls : List String := %s\n", leanStrList(calls))
 	var guards []string
 	for _, s := range sc.Body.List {
